@@ -516,23 +516,24 @@ func (n *Nodis) Scan(cursor int64, match string, count int64, typ ds.ValueType) 
 	if keyLen == 0 {
 		return 0, nil
 	}
-	if cursor >= keyLen {
+	// a cursor is the 1-based position of the first entry to visit (0 = from the start); the last
+	// entry sits at position keyLen, so only cursors beyond it are past the end
+	if cursor > keyLen {
 		return 0, nil
 	}
 	keys := make([]string, 0)
 	now := time.Now().UnixMilli()
 	tx := newTx(n.store)
 	var iterCursor int64 = 0
+	var finished = true
 	n.store.metadata.Scan(func(key string, m *metadata) bool {
 		iterCursor++
 		if cursor--; cursor > 0 {
 			return true
 		}
-		if iterCursor > keyLen {
-			iterCursor = 0
-			return false
-		}
 		if count == 0 {
+			// this entry is the first one not visited: the next call continues here
+			finished = false
 			return false
 		}
 		count--
@@ -547,6 +548,10 @@ func (n *Nodis) Scan(cursor int64, match string, count int64, typ ds.ValueType) 
 		}
 		return true
 	})
+	if finished {
+		// every entry has been visited
+		return 0, keys
+	}
 	return iterCursor, keys
 }
 
